@@ -4,7 +4,7 @@ from . import common as C
 
 MANIFEST = dict(
    technique="Lean 4 proof: regex-derivative matcher vs per-format specification automaton, equivalence for ALL strings from a kernel-checked bisimulation certificate; regexes regenerated from the library by a translator on every run; the Go parsers behind the validators (time.Parse layouts, netip.ParsePrefix/ParseAddr/parseIPv4Fields/parseIPv6, strconv.Atoi) transcribed from the Go source and proved equal to the definitions for all strings; real schemas tied by differential correspondence on single-edit neighbourhoods",
-   text="For IPv4, Hex, E.164, MAC (':' '-' '.'), Base64, UUID (generic, v4, v6, v7, UUID(\"vN\")), GUID the theorem c20_<fmt> proves for every byte string that the validator's regular expression (translated from the live regexp object by regexp/syntax on every run) accepts it iff the format's definition (a small step automaton written independently) does; c20_<fmt>_pattern proves the same for the pattern exported to JSON Schema. Parser-validated formats: c20_isodate (time.Parse(\"2006-01-02\") transcription = calendar dates), c20_isodatetime (guard pattern AND time.Parse(RFC3339) transcription = RFC 3339), c20_base64url (pattern AND length rule = RFC 4648 s.5), c20_cidrv4_netip, c20_ipv6_netip, c20_cidrv6_netip (netip.ParsePrefix / ParseAddr / parseIPv4Fields / parseIPv6 transcribed from the Go source = the definitions) - all for ALL strings; the exported patterns of CIDRv4, ISO date, all 28 IsoDateTime(options) sets and 7 IsoTime(options) sets and the default IsoTime() have full theorems. Partial + witness where the code deviates: the default date-time pattern (seconds optional), the Base64URL pattern (no length rule), the IPv6/CIDRv6 patterns: c20_ipv6_pattern_nozone / c20_cidrv6_pattern_nozone prove them right on every string without '%' outside the excluded region Fmt.ipv6QuadDefect (dotted-quad addresses with a leading-zero octet or an outline of the hex part the pattern does not know), *_partial_all on all strings; the witnesses show the three defect classes (open findings: the pattern text is pinned by two JSON-text comparisons in jsonschema/to_test.go and by nothing else). If a regex changes, the certificate is recomputed; if it is no longer equivalent the search returns a shortest distinguishing string which is replayed against the real schema.",
+   text="For IPv4, Hex, E.164, MAC (':' '-' '.'), Base64, UUID (generic, v4, v6, v7, UUID(\"vN\")), GUID the theorem c20_<fmt> (fmt = ipv4, hex, e164, mac, macdash, macdot, base64, uuid, uuidv4/6/7, uuidp4/6/7, guid) proves for every byte string that the validator's regular expression (translated from the live regexp object by regexp/syntax on every run) accepts it iff the format's definition (a small step automaton written independently) does; c20_<fmt>_pattern proves the same for the pattern exported to JSON Schema. Parser-validated formats: c20_isodate (time.Parse(\"2006-01-02\") transcription = calendar dates), c20_isodatetime (guard pattern AND time.Parse(RFC3339) transcription = RFC 3339), c20_base64url (pattern AND length rule = RFC 4648 s.5), c20_cidrv4_netip, c20_ipv6_netip, c20_cidrv6_netip (netip.ParsePrefix / ParseAddr / parseIPv4Fields / parseIPv6 transcribed from the Go source = the definitions) - all for ALL strings; the exported patterns of CIDRv4, ISO date, all 28 IsoDateTime(options) sets and 7 IsoTime(options) sets and the default IsoTime() have full theorems. Partial + witness where the code deviates: the default date-time pattern (seconds optional), the Base64URL pattern (no length rule), the IPv6/CIDRv6 patterns: c20_ipv6_pattern_nozone / c20_cidrv6_pattern_nozone prove them right on every string without '%' outside the excluded region Fmt.ipv6QuadDefect (dotted-quad addresses with a leading-zero octet or an outline of the hex part the pattern does not know), *_partial_all on all strings; the witnesses show the three defect classes (open findings: the pattern text is pinned by two JSON-text comparisons in jsonschema/to_test.go and by nothing else). The driver evaluates Re.accepts itself — the subject of these theorems — on every generated case (the derivative-automaton table is used by the certificate search only, whose output the kernel checks). There is no c20_cidrv4 / c20_ipv6 / c20_cidrv6 theorem about a regex: these three validators are parsers, and their theorems are the *_netip ones. If a regex changes, the certificate is recomputed; if it is no longer equivalent the search returns a shortest distinguishing string which is replayed against the real schema.",
    note="Trusted: Lean kernel; axioms propext/Classical.choice/Quot.sound only; the translator (regexp/syntax AST -> Lean term; validated by comparing Re.accepts with Go regexp on every generated case); the specification automata in Model/FormatSpec*.lean as the reading of the documented formats; Go regexp semantics as the reading of a JSON-Schema pattern; the hand transcriptions of the Go standard library parsers (Model/GoParsers.lean, Model/GoNetip.lean: go1.26 time/format.go, net/netip/netip.go, strconv.Atoi) - they are the driver's validator models and are compared with the real functions through schema.Parse on every generated case, and a go/ast structure fingerprint ties the pkg/validate functions that call them. The IPv6 definition has two independent readings (automaton, list-based) cross-checked at run time.",
    design="DESIGN.md §5 C20; notes/C20.md")
 
@@ -15,14 +15,14 @@ DTO = ["%s_%s_%s" % (p, o, l) for p in "nm01239" for o in "01" for l in "01"]   
 TAIL_JOBS = ["dtt_" + x for x in DTO] + ["dtt_rfc_optsec"]                      # certificates of what follows the date
 THEOREMS = (["Gozod.C20.bisim_sound", "Gozod.C20.bisim_sound_full"]
     + ["Gozod.C20.c20_%s" % f for f in REGEX_FORMATS] + ["Gozod.C20.c20_%s_pattern" % f for f in REGEX_FORMATS]
-    + ["Gozod.C20.c20_cidrv4_pattern", "Gozod.C20.c20_cidrv4", "Gozod.C20.isoDate_quot", "Gozod.C20.c20_isodate_pattern",
+    + ["Gozod.C20.c20_cidrv4_pattern", "Gozod.C20.isoDate_quot", "Gozod.C20.c20_isodate_pattern",
        "Gozod.C20.c20_isodatetime_pattern_optsec", "Gozod.C20.c20_isodatetime_pattern_partial", "Gozod.C20.c20_isodatetime_pattern_witness",
        "Gozod.C20.c20_isodatetime_goparse_witness",] + ["Gozod.C20.c20_%s" % j for j in OPTION_JOBS] + [ "Gozod.C20.c20_base64url_pattern_partial", "Gozod.C20.c20_base64url_pattern_witness"]
     # IPv6 / CIDRv6 (certificates over the strings without '.' and '%'; witnesses for the three defect classes)
     + ["Gozod.C20.bisim_sound_R", "Gozod.C20.bisim_sound_R_full", "Gozod.C20.ipv6_hex_quot", "Gozod.C20.cidrv6_hex_quot",
-       "Gozod.C20.c20_ipv6", "Gozod.C20.c20_ipv6_pattern_partial", "Gozod.C20.c20_cidrv6_pattern_partial",
+       "Gozod.C20.c20_ipv6_pattern_partial", "Gozod.C20.c20_cidrv6_pattern_partial",
        "Gozod.C20.c20_ipv6_witnesses", "Gozod.C20.c20_ipv6_pattern_witness",
-       "Gozod.C20.c20_cidrv6_pattern_witnesses", "Gozod.C20.c20_cidrv6_pattern_witness", "Gozod.C20.c20_cidrv6"]
+       "Gozod.C20.c20_cidrv6_pattern_witnesses", "Gozod.C20.c20_cidrv6_pattern_witness"]
     # the matcher is the language; concatenation; date-time = date (10 bytes) . tail; all 28 option sets
     + ["Gozod.Re.accepts_iff_lang", "Gozod.Re.accepts_seq", "Gozod.Re.accepts_alt", "Gozod.C20.date_length", "Gozod.C20.dateThen_split",
        "Gozod.C20.accepts_date_seq", "Gozod.C20.datetime_of_tail", "Gozod.C20.c20_dto_of"]
